@@ -518,6 +518,9 @@ def run(repo: Repo, R: Report) -> None:
                 tainted |= {norm(k)[:40] for k in fed_by if _ambient_call(k)}
             R.check(not tainted, r_amb, ORCH, "SemantivaOrchestrator.execute", norm(c)[:70], f"a volatile / per-run value ({sorted(tainted)}) is hashed into an identity", c.lineno)
 
+    # ------------------------------------------------------------------ D1b ambient values upstream of the slice
+    no_ambient_upstream(repo, R, sl)
+
     # ------------------------------------------------------------------ D3a no process-lifetime state
     no_process_state(repo, R, sl)
 
@@ -592,16 +595,20 @@ def run(repo: Repo, R: Report) -> None:
     for n in walk_no_nested(crk_nf):
         if isinstance(n, ast.Return) and n.value is not None:
             returned |= crk_flow.origins(n.value)
-    is_sorted = lambda l: isinstance(l[0], ast.Call) and not l[1] and isinstance(l[0].func, ast.Name) and l[0].func.id == "sorted"  # noqa: E731
+    # sorted(...) under a total order: a key that can tie two different names leaves them in set iteration order
+    is_sorted = lambda l: isinstance(l[0], ast.Call) and not l[1] and isinstance(l[0].func, ast.Name) and l[0].func.id == "sorted" and _total_sort_key(kwarg(l[0], "key"))  # noqa: E731
     is_empty = lambda l: not l[1] and ((isinstance(l[0], (ast.List, ast.Tuple)) and not l[0].elts) or (isinstance(l[0], ast.Call) and call_attr(l[0]) in ("list", "tuple") and not l[0].args))  # noqa: E731
     unsorted = sorted(_show_leaf(l) for l in returned if not (is_sorted(l) or is_empty(l)))
-    R.check(any(is_sorted(l) for l in returned) and not unsorted, r_ord, BUILDER, "_collect_required_context_keys", "required context keys returned sorted", f"the required-key list of the inspection payload follows set iteration order (hash-seed dependent): it can be `{unsorted[0] if unsorted else 'nothing sorted'}`", crk.lineno)
+    R.check(any(is_sorted(l) for l in returned) and not unsorted, r_ord, BUILDER, "_collect_required_context_keys", "required context keys returned sorted", f"the required-key list of the inspection payload follows set iteration order (hash-seed dependent), entirely or among names the sort key ties: it can be `{unsorted[0] if unsorted else 'nothing sorted'}`", crk.lineno)
     # set iteration anywhere in the slice
     for rel, qn, f in sl:
         for n in walk_no_nested(f):
             it = n.iter if isinstance(n, (ast.For, ast.comprehension)) else None
             if it is not None and isinstance(it, ast.Call) and call_attr(it) in ("set", "frozenset"):
                 R.violation(r_ord, rel, qn, norm(it)[:70], "iteration over a set inside the identity slice: order depends on PYTHONHASHSEED", getattr(it, "lineno", f.lineno))
+
+    sorts_of_sets_are_total(repo, R, r_ord, sl)
+    no_container_rendering(repo, R, sl)
 
     # ------------------------------------------------------------------ D4 same functions, same fields on both paths
     r_same = R.rule("C04-D4-inspect-equals-runtime", "inspection and run time compute the three pipeline-level ids with the same functions of semantiva.metadata.semantic_id / graph_builder, from the canonical nodes enriched with the same metadata and from (node_uuid, node semantic id) pairs built alike; each id prefix is produced in exactly one function", 9)
@@ -1411,3 +1418,382 @@ def _class_attr_order(create: ast.AST, attr: str) -> str:
         if bad in kinds:
             return bad
     return "sorted" if kinds == {"sorted"} else "fixed"
+
+
+# ---------------------------------------------------------------------------
+# round 3: D1b ambient values upstream of the identities, D2b textual rendering of containers, D2 total orders
+# ---------------------------------------------------------------------------
+MESSAGE_METHODS = {"debug", "info", "warning", "warn", "error", "exception", "critical", "log"}
+DISPLAY_ROOTS = {(BUILDER, "build_inspection_payload"), (BUILDER, "_build_sweep_payload"), (BUILDER, "_collect_required_context_keys")}
+
+
+def _message_context(n: ast.AST, fn: ast.AST) -> bool:
+    """*n* only contributes to a diagnostic text: it sits inside a raise / assert message, a logger or warnings call
+    or the constructor of an exception."""
+    for a in ancestors(n):
+        if a is fn:
+            return False
+        if isinstance(a, ast.Raise):
+            return True
+        if isinstance(a, ast.Assert) and a.msg is not None and any(x is n for x in ast.walk(a.msg)):
+            return True
+        if isinstance(a, ast.Call):
+            if isinstance(a.func, ast.Attribute) and a.func.attr in MESSAGE_METHODS and not any(x is n for x in ast.walk(a.func)):
+                return True
+            nm = call_attr(a) or ""
+            if nm.endswith(("Error", "Exception", "Warning")) and not any(x is n for x in ast.walk(a.func)):
+                return True
+    return False
+
+
+def _closure_of(repo: Repo, sl: List[Tuple[str, str, ast.AST]]):
+    roots = [(repo.module(rel), f) for rel, _qn, f in sl]
+    clo = repo.call_graph_closure(roots, stop=lambda m, n: m.rel.startswith(STATE_EXEMPT))
+    return [(m, f) for m, f, _path in sorted(clo.values(), key=lambda t: (t[0].rel, getattr(t[1], "lineno", 0))) if not m.rel.startswith(STATE_EXEMPT)]
+
+
+def _plain_name_targets(st: ast.AST) -> Optional[Set[str]]:
+    """Names bound by *st* when it binds nothing but plain local names (assignment, loop header, with-as); else None."""
+    tgts: List[ast.AST] = []
+    if isinstance(st, ast.Assign):
+        tgts = list(st.targets)
+    elif isinstance(st, (ast.AnnAssign, ast.AugAssign)):
+        tgts = [st.target]
+    elif isinstance(st, (ast.For, ast.AsyncFor)):
+        tgts = [st.target]
+    elif isinstance(st, (ast.With, ast.AsyncWith)):
+        tgts = [it.optional_vars for it in st.items if it.optional_vars is not None]
+    else:
+        return None
+    out: Set[str] = set()
+    for t in tgts:
+        for el in ast.walk(t):
+            if isinstance(el, (ast.Attribute, ast.Subscript)):
+                return None
+            if isinstance(el, ast.Name):
+                out.add(el.id)
+    return out
+
+
+def ambient_escape(fn: ast.AST, call: ast.Call) -> Optional[ast.AST]:
+    """The statement through which the value of the ambient call *call* leaves diagnostic use in *fn*: the value (or a
+    local computed from it, followed to a fixpoint, also into nested defs that capture the local) is returned, stored
+    into an attribute / container, passed to a call that is not a logger / exception, or decides a branch.
+    None when it only ever reaches log / exception texts (timing a build for a debug line is not an identity input)."""
+    tainted: Set[str] = set()
+    while True:
+        before = len(tainted)
+        for n in ast.walk(fn):
+            hit = n is call or (isinstance(n, ast.Name) and isinstance(n.ctx, ast.Load) and n.id in tainted)
+            if not hit or _message_context(n, fn):
+                continue
+            st = stmt_of(n)
+            names = _plain_name_targets(st)
+            in_header = isinstance(st, (ast.For, ast.AsyncFor)) and any(x is n for x in ast.walk(st.iter)) or isinstance(st, (ast.With, ast.AsyncWith)) and any(x is n for it in st.items for x in ast.walk(it.context_expr))
+            in_value = isinstance(st, (ast.Assign, ast.AnnAssign, ast.AugAssign)) and st.value is not None and any(x is n for x in ast.walk(st.value))
+            if names is not None and (in_header or in_value):
+                tainted |= names
+                continue
+            return st
+        if len(tainted) == before:
+            return None
+
+
+def no_ambient_upstream(repo: Repo, R: Report, sl: List[Tuple[str, str, ast.AST]]) -> None:
+    """C04-D1b: the functions the identity slice calls (node preprocessing, the sweep class factory, class / node
+    factories, the inspection builder) hand it nothing that depends on the process."""
+    r = R.rule("C04-D1b-no-ambient-upstream", "no function reachable from the identity slice lets a clock / random / process / object-address / salted-hash value (hash() of text, id(), uuid4, time, os.environ ...) leave it other than inside a log or exception text: what these functions return or attach to the classes they build (names, qualnames, metadata) is hashed into node uuids and ids, so it must be the same in every process", 40)
+    in_slice = {id(f) for _rel, _qn, f in sl}
+    for m, f in _closure_of(repo, sl):
+        if id(f) in in_slice or getattr(f, "name", "") in ("__hash__", "__eq__"):
+            continue  # the slice itself: C04-D1 (no ambient call at all)
+        qn = qualname_of(f)
+        bad: Optional[Tuple[ast.Call, ast.AST]] = None
+        for c in calls_in(f, include_nested=True):
+            if not _ambient_call(c):
+                continue
+            owner = next((a for a in ancestors(c) if isinstance(a, FuncNode)), f)
+            if getattr(owner, "name", "") in ("__hash__", "__eq__"):
+                continue
+            esc = ambient_escape(f, c)
+            if esc is not None:
+                bad = (c, esc)
+                break
+        if bad is None:
+            R.ok(r, m.rel, qn, f"{qn}: no ambient value leaves the function", "", getattr(f, "lineno", 0))
+        else:
+            c, esc = bad
+            R.violation(r, m.rel, qn, norm(esc)[:110], f"`{norm(c)[:60]}` is a process-dependent value (hash seed / clock / address / environment) and it leaves {qn} through `{norm(esc)[:70]}`; {qn} is reachable from the identity slice (processor_ref, preprocessor metadata and node parameters are hashed into node uuid, pipeline id, semantic id and config id): a fresh process or another PYTHONHASHSEED gives other identities for the same configuration", getattr(c, "lineno", 0))
+
+
+# -- D2b --------------------------------------------------------------------------------------------------------------
+SCALAR_TYPES = {"str", "int", "float", "bool", "bytes", "complex", "Number", "Real", "Integral", "Decimal", "Fraction", "date", "datetime", "time", "timedelta", "Path", "PurePath", "Enum", "UUID", "NoneType", "type"}
+MAPPING_TYPES = {"dict", "Mapping", "MutableMapping", "OrderedDict", "defaultdict"}
+SEQUENCE_TYPES = {"list", "Sequence", "MutableSequence"}
+SET_TYPES = {"set", "frozenset", "Set", "AbstractSet", "MutableSet"}
+TEXT_CALLS = {"str", "int", "float", "bool", "len", "type", "join", "hexdigest", "dumps", "lower", "upper", "strip", "format", "hex", "dump", "unparse", "repr", "ascii", "encode", "decode"}
+DUNDER_TEXT = {"__name__", "__qualname__", "__module__", "__doc__"}
+
+
+def _type_names(e: ast.AST) -> Optional[Set[str]]:
+    """Class names of the second argument of isinstance (a name, a dotted name, a tuple of them, `type(None)`)."""
+    if isinstance(e, ast.Tuple):
+        out: Set[str] = set()
+        for x in e.elts:
+            sub = _type_names(x)
+            if sub is None:
+                return None
+            out |= sub
+        return out
+    if isinstance(e, ast.Call) and call_attr(e) == "type" and len(e.args) == 1 and isinstance(e.args[0], ast.Constant) and e.args[0].value is None:
+        return {"NoneType"}
+    d = dotted_name(e)
+    return {d.split(".")[-1]} if d else None
+
+
+def _isinstance_of(test: ast.AST, x_text: str) -> Optional[Set[str]]:
+    if isinstance(test, ast.Call) and isinstance(test.func, ast.Name) and test.func.id == "isinstance" and len(test.args) == 2 and norm(test.args[0]) == x_text:
+        return _type_names(test.args[1])
+    return None
+
+
+def _kind_atoms(x_text: str):
+    """Atoms for cfg.edges_guaranteeing: 'X is a scalar', 'X is not a mapping', 'X is not a list', 'X is not a set'."""
+    def scalar(test: ast.AST) -> Optional[bool]:
+        t = _isinstance_of(test, x_text)
+        if t is not None and t and t <= SCALAR_TYPES:
+            return True
+        if isinstance(test, ast.Compare) and len(test.ops) == 1 and isinstance(test.comparators[0], ast.Constant) and test.comparators[0].value is None and norm(test.left) == x_text:
+            return True if isinstance(test.ops[0], ast.Is) else None
+        return None
+
+    def excludes(kinds: Set[str]):
+        def atom(test: ast.AST) -> Optional[bool]:
+            t = _isinstance_of(test, x_text)
+            if t is not None and t & kinds:
+                return False  # the test is the negation of 'X is not of this kind'
+            return None
+        return atom
+
+    return scalar, [excludes(MAPPING_TYPES), excludes(SEQUENCE_TYPES), excludes(SET_TYPES)]
+
+
+def _guarded(g, fn: ast.AST, site: ast.AST, atom) -> bool:
+    """Every way to evaluate *site* passes a branch edge (if / while statement, conditional expression, and/or
+    short-circuit is not modelled) on which *atom* holds."""
+    from ..cfg import edges_guaranteeing
+
+    cur = site
+    for a in ancestors(site):  # expression-level guard: <a> if <test> else <b>
+        if a is fn or isinstance(a, ast.stmt):
+            break
+        if isinstance(a, ast.IfExp) and cur is not a.test:
+            e = edges_guaranteeing(a.test, atom)
+            if ("T" in e and cur is a.body) or ("F" in e and cur is a.orelse):
+                return True
+        cur = a
+    blocked: Set[Tuple[int, str]] = set()
+    for nd in g.nodes:
+        if nd.kind in ("if", "while") and nd.part is not None:
+            for e in edges_guaranteeing(nd.part, atom):
+                blocked.add((nd.id, e))
+    if not blocked:
+        return False
+    st = stmt_of(site)
+    ids = g.nodes_for(st)
+    while not ids and st is not None and st is not fn:
+        st = getattr(st, "_parent", None)
+        ids = g.nodes_for(st) if isinstance(st, ast.stmt) else []
+    if not ids:
+        return False
+    seen = g.reach([g.entry], blocked_edges=blocked)
+    return not any(i in seen for i in ids)
+
+
+def _dumps_param(repo: Repo, mod, c: ast.Call) -> Optional[ast.AST]:
+    """The argument of call *c* that is handed to json.dumps: c is json.dumps(x, ...) itself, or a call of a function of
+    the package whose body passes its first parameter to json.dumps."""
+    if not c.args:
+        return None
+    if _qualified(mod, c) == "json.dumps":
+        return c.args[0]
+    for tm, tf in repo.resolve_call(mod, c):
+        if isinstance(tf, FuncNode) and tf.args.args:
+            p = tf.args.args[0].arg
+            for k in calls_in(tf):
+                if _qualified(tm, k) == "json.dumps" and k.args and isinstance(k.args[0], ast.Name) and k.args[0].id == p:
+                    return c.args[0]
+    return None
+
+
+def _json_failed_fallback(repo: Repo, mod, fn: ast.AST, site: ast.AST, x_text: str) -> bool:
+    """*site* is in the handler of a try whose body first hands the same value to json.dumps: the rendering is used
+    only for values JSON cannot express (dates and the like), mappings of plain values never get here."""
+    cur = site
+    for a in ancestors(site):
+        if a is fn:
+            break
+        if isinstance(a, ast.Try) and any(cur is h for h in a.handlers):
+            for st in a.body:
+                for c in ast.walk(st):
+                    if isinstance(c, ast.Call):
+                        arg = _dumps_param(repo, mod, c)
+                        if arg is not None and norm(arg) == x_text:
+                            return True
+        cur = a
+    return False
+
+
+def _json_predicate(repo: Repo, mod, test: ast.AST, x_text: str) -> Optional[bool]:
+    """*test* is `<is_json>(X)` with <is_json> a function of the package that answers whether json.dumps accepts its
+    parameter (try json.dumps(p) -> True, handlers -> False): the extracted-predicate spelling of the fallback."""
+    if not (isinstance(test, ast.Call) and len(test.args) == 1 and not test.keywords and norm(test.args[0]) == x_text):
+        return None
+    for tm, tf in repo.resolve_call(mod, test):
+        if not (isinstance(tf, FuncNode) and len(tf.args.args) == 1):
+            continue
+        p = tf.args.args[0].arg
+        tries = [n for n in walk_no_nested(tf) if isinstance(n, ast.Try)]
+        if len(tries) != 1:
+            continue
+        t = tries[0]
+        dumped = any(isinstance(c, ast.Call) and _qualified(tm, c) == "json.dumps" and c.args and isinstance(c.args[0], ast.Name) and c.args[0].id == p for st in t.body for c in ast.walk(st))
+        in_handlers = {id(n) for h in t.handlers for n in ast.walk(h)}
+        rets = [n for n in walk_no_nested(tf) if isinstance(n, ast.Return)]
+        const = lambda n, v: isinstance(n.value, ast.Constant) and n.value.value is v  # noqa: E731
+        if dumped and rets and t.handlers and all(const(n, False) if id(n) in in_handlers else const(n, True) for n in rets) and any(id(n) in in_handlers for n in rets):
+            return False  # the test is the negation of 'json.dumps(X) failed'
+    return None
+
+
+def _never_container(x: ast.AST) -> bool:
+    if isinstance(x, (ast.Constant, ast.JoinedStr)):
+        return True
+    if isinstance(x, ast.Name) and any(isinstance(a, ast.ExceptHandler) and a.name == x.id for a in ancestors(x)):
+        return True  # the caught exception
+    if isinstance(x, ast.Attribute) and x.attr in DUNDER_TEXT:
+        return True
+    if isinstance(x, ast.Call) and call_attr(x) in TEXT_CALLS:
+        return True
+    if isinstance(x, ast.BinOp) and isinstance(x.op, (ast.Add, ast.Mod)):
+        return _never_container(x.left) or _never_container(x.right)
+    return False
+
+
+def _render_sites(fn: ast.AST) -> List[Tuple[ast.AST, ast.AST, bool]]:
+    """(site, rendered value, is it the repr family) for every place in *fn* where a value is turned into text."""
+    out: List[Tuple[ast.AST, ast.AST, bool]] = []
+    for n in walk_no_nested(fn):
+        if isinstance(n, ast.Call) and isinstance(n.func, ast.Name) and n.func.id in ("repr", "ascii", "str", "format") and len(n.args) >= 1 and not n.keywords:
+            if n.func.id == "str" and len(n.args) > 1:
+                continue  # str(bytes, encoding)
+            out.append((n, n.args[0], n.func.id in ("repr", "ascii")))
+        elif isinstance(n, ast.Call) and isinstance(n.func, ast.Attribute) and n.func.attr in ("__repr__", "__str__") and not n.args:
+            out.append((n, n.func.value, n.func.attr == "__repr__"))
+        elif isinstance(n, ast.FormattedValue):
+            out.append((n, n.value, n.conversion in (114, 97)))
+        elif isinstance(n, ast.BinOp) and isinstance(n.op, ast.Mod) and isinstance(n.left, ast.Constant) and isinstance(n.left.value, str):
+            vals = n.right.elts if isinstance(n.right, ast.Tuple) else [n.right]
+            for v in vals:
+                out.append((n, v, "%r" in n.left.value or "%a" in n.left.value))
+        elif isinstance(n, ast.Call) and isinstance(n.func, ast.Attribute) and n.func.attr == "format" and isinstance(n.func.value, ast.Constant) and isinstance(n.func.value.value, str):
+            for v in list(n.args) + [kw.value for kw in n.keywords]:
+                out.append((n, v, "!r" in n.func.value.value or "!a" in n.func.value.value))
+    return out
+
+
+def no_container_rendering(repo: Repo, R: Report, sl: List[Tuple[str, str, ast.AST]]) -> None:
+    """C04-D2b: what is hashed holds no repr()/str() text of a mapping, set or list of mappings."""
+    from ..cfg import CFG
+
+    r = R.rule("C04-D2b-no-container-text-in-hashed-value", "in the functions that produce hashed values (canonical node, preprocessor metadata, domain signatures, id functions and what they call) a value is turned into text by repr()/ascii()/%r/!r only where it cannot be a mapping, set or list - it is a scalar on every path there (isinstance guard), containers are routed elsewhere first, or json.dumps was tried on the same value and failed - and by str()/format()/f-string only where it has not just been proven to be a non-scalar: the repr of a mapping follows insertion (YAML key) order and the repr of a set follows the hash seed, and no later json.dumps(sort_keys=True) can reorder text", 12)
+    hashed = [(rel, qn, f) for rel, qn, f in sl if not any(rel == drel and (qn == dqn or qn.startswith(dqn + ".")) for drel, dqn in DISPLAY_ROOTS)]
+    seen: Set[int] = set()
+    for m, f0 in _closure_of(repo, hashed):
+        for f in [n for n in ast.walk(f0) if isinstance(n, FuncNode)]:
+            if id(f) in seen:
+                continue
+            seen.add(id(f))
+            qn = qualname_of(f)
+            g = None
+            n_bad = 0
+            for site, x, is_repr in _render_sites(f):
+                if _message_context(site, f) or _never_container(x):
+                    continue
+                x_text = norm(x)
+                if g is None:
+                    g = CFG(f)
+                scalar, excl = _kind_atoms(x_text)
+                json_failed = lambda test, _t=x_text, _m=m: _json_predicate(repo, _m, test, _t)  # noqa: E731
+                if is_repr:
+                    ok = _guarded(g, f, site, scalar) or all(_guarded(g, f, site, a) for a in excl) or _json_failed_fallback(repo, m, f, site, x_text) or _guarded(g, f, site, json_failed)
+                    why = f"`{norm(site)[:60]}` renders `{x_text[:40]}` as text and nothing on the way there rules out a mapping / set / list (no isinstance guard for scalars, containers not routed elsewhere, not the fallback of a failed json.dumps of the same value): for a mapping the text follows the YAML key order, for a set the hash seed, and it is hashed as an opaque string - reordering keys inside that value changes node semantic id, semantic id and config id"
+                else:
+                    # str()/format()/f"{x}": only when the branch taken proves the value is NOT a scalar (the else-arm of a scalar test)
+                    def non_scalar(test: ast.AST, _t=x_text) -> Optional[bool]:
+                        t = _isinstance_of(test, _t)
+                        return False if t is not None and "str" in t and t <= SCALAR_TYPES else None
+                    ok = not _guarded(g, f, site, non_scalar) or all(_guarded(g, f, site, a) for a in excl) or _json_failed_fallback(repo, m, f, site, x_text) or _guarded(g, f, site, json_failed)
+                    why = f"`{norm(site)[:60]}` is reached only when `{x_text[:40]}` is not a scalar, and renders it as text: for a mapping the text follows the YAML key order, for a set the hash seed, and it is hashed as an opaque string"
+                if not ok:
+                    n_bad += 1
+                    R.violation(r, m.rel, qn, norm(stmt_of(site))[:110], why, getattr(site, "lineno", 0))
+            if not n_bad:
+                R.ok(r, m.rel, qn, f"{qn}: no container rendered as text", "", getattr(f, "lineno", 0))
+
+
+# -- D2 total orders --------------------------------------------------------------------------------------------------
+def _total_sort_key(key: Optional[ast.AST]) -> bool:
+    """The sort key cannot tie two different elements: absent / None, `str` / `repr`, or a lambda returning its
+    parameter, a serialisation of it, or a tuple that contains the bare parameter (case-folded first, exact second)."""
+    if key is None or (isinstance(key, ast.Constant) and key.value is None):
+        return True
+    if isinstance(key, ast.Name) and key.id in ("str", "repr"):
+        return True
+    if isinstance(key, ast.Lambda) and len(key.args.args) == 1:
+        p = key.args.args[0].arg
+        b = key.body
+        is_p = lambda e: isinstance(e, ast.Name) and e.id == p  # noqa: E731
+        if is_p(b):
+            return True
+        if isinstance(b, ast.Tuple) and any(is_p(e) for e in b.elts):
+            return True
+        if isinstance(b, ast.Call) and call_attr(b) in ("str", "repr", "dump", "dumps") and b.args and is_p(b.args[0]):
+            return True
+    return False
+
+
+def _set_valued(fn: ast.AST, e: ast.AST, depth: int = 0) -> bool:
+    """*e* evaluates to a set (iteration order = hash seed): literal, comprehension, set()/frozenset(), set algebra,
+    or a local every assignment of which is one of those."""
+    if isinstance(e, (ast.Set, ast.SetComp)):
+        return True
+    if isinstance(e, ast.Call) and isinstance(e.func, ast.Name) and e.func.id in ("set", "frozenset"):
+        return True
+    if isinstance(e, ast.Call) and isinstance(e.func, ast.Attribute) and e.func.attr in ("union", "intersection", "difference", "symmetric_difference") and _set_valued(fn, e.func.value, depth):
+        return True
+    if isinstance(e, ast.BinOp) and isinstance(e.op, (ast.BitOr, ast.BitAnd, ast.Sub, ast.BitXor)):
+        return _set_valued(fn, e.left, depth) or _set_valued(fn, e.right, depth)
+    if isinstance(e, ast.Call) and isinstance(e.func, ast.Name) and e.func.id in ("list", "tuple", "iter") and len(e.args) == 1:
+        return _set_valued(fn, e.args[0], depth)
+    if isinstance(e, ast.Name) and depth < 3:
+        vals = assigned_value(fn, e.id)
+        return bool(vals) and all(_set_valued(fn, v, depth + 1) for v in vals)
+    return False
+
+
+def sorts_of_sets_are_total(repo: Repo, R: Report, rule: str, sl: List[Tuple[str, str, ast.AST]]) -> None:
+    """Anywhere in the call-graph closure of the slice: sorting a set with a key that can tie different elements leaves
+    the tied ones in set iteration order."""
+    for m, f in _closure_of(repo, sl):
+        nf = f
+        for c in calls_in(f):
+            src = None
+            if isinstance(c.func, ast.Name) and c.func.id == "sorted" and c.args:
+                src = c.args[0]
+            elif isinstance(c.func, ast.Attribute) and c.func.attr == "sort" and isinstance(c.func.value, ast.Name):
+                src = c.func.value
+            if src is None or kwarg(c, "key") is None or not _set_valued(nf, src):
+                continue
+            R.check(_total_sort_key(kwarg(c, "key")), rule, m.rel, qualname_of(f), norm(c)[:90],
+                    f"a set is sorted with key `{norm(kwarg(c, 'key'))[:40]}`, which can give two different elements the same key; sorted() is stable, so tied elements stay in set iteration order, which depends on PYTHONHASHSEED: the list differs between processes for the same configuration", c.lineno)
